@@ -44,7 +44,7 @@ def gen_material(rng, prop):
             m['relaxation time'] = float(10.0 ** rng.uniform(-2, 2))
         return m
     E = float(10.0 ** rng.uniform(0, 3))
-    Y0 = float(E * 10.0 ** rng.uniform(-3.5, -1.5))
+    Y0 = float(E * 10.0 ** (rng.uniform(-3.5, -1.5) if rng.random() < 0.75 else rng.uniform(-5.5, -3.5)))   # incl. very soft metals
     m = {'model': 'j2', 'elastic modulus': E, 'poisson ratio': float(rng.uniform(0.0, 0.45)),
          'yield strength': Y0,
          'kinematics': str(rng.choice(['large deformations', 'small deformations', 'seth hill'], p=[0.45, 0.4, 0.15])),
